@@ -703,6 +703,8 @@ structure PresAll (f : Nat) : Prop where
   dnode : ∀ (P : Id → Prop) r id r', RInvP P r → disposeNode f r id = .ok r' →
     RootPost P r r' ∧ r'.get? id = none
   dchildren : ∀ (P : Id → Prop) r id r', RInvP P r → disposeChildren f r id = .ok r' → RootPost P r r'
+  /-- the loop of `disposeNode` (D23): an iteration of `disposeChildren` -/
+  rest : ∀ (P : Id → Prop) r id r', RInvP P r → disposeRest f r id = .ok r' → RootPost P r r'
   cleanups : ∀ (P : Id → Prop) r cls r', RInvP P r → (∀ cl ∈ cls, EnvLt r.nodes.size cl.env) →
     runCleanups f r cls = .ok r' → RootPost P r r'
   dlist : ∀ (P : Id → Prop) r cs r', RInvP P r → disposeList f r cs = .ok r' →
@@ -711,7 +713,7 @@ structure PresAll (f : Nat) : Prop where
 theorem presAll_zero : PresAll 0 := by
   constructor <;> intros <;> simp_all [execBody, execInner, execStmt, runClosure, createSelector,
     runNodeUpdate, propagateLoop, propagateNodeUpdates, propagateUpdates, disposeNode, disposeChildren,
-    runCleanups, disposeList]
+    disposeRest, runCleanups, disposeList]
 
 /-! ### 5. the easy cases -/
 
@@ -802,12 +804,32 @@ theorem pres_dnode {f : Nat} (ih : PresAll f) (P : Id → Prop) (r : Root) (id :
   split at hx
   · cases hx
   · rename_i r1 h1
-    simp only [Except.ok.injEq] at hx
-    subst hx
-    obtain ⟨i0, g0⟩ := hI.unsubscribe id
-    obtain ⟨i1, g1⟩ := ih.dchildren P (unsubscribe r id) id r1 i0 h1
-    obtain ⟨i2, g2, d2⟩ := i1.removeNode id
-    exact ⟨⟨i2, (g0.trans g1).trans g2⟩, d2⟩
+    split at hx
+    · cases hx
+    · rename_i r1' h1'
+      simp only [Except.ok.injEq] at hx
+      subst hx
+      obtain ⟨i0, g0⟩ := hI.unsubscribe id
+      obtain ⟨i1, g1⟩ := ih.dchildren P (unsubscribe r id) id r1 i0 h1
+      obtain ⟨i1', g1'⟩ := ih.rest P r1 id r1' i1 h1'
+      obtain ⟨i2, g2, d2⟩ := i1'.removeNode id
+      exact ⟨⟨i2, ((g0.trans g1).trans g1').trans g2⟩, d2⟩
+
+theorem pres_rest {f : Nat} (ih : PresAll f) (P : Id → Prop) (r : Root) (id : Id) (r' : Root)
+    (hI : RInvP P r) (hx : disposeRest (f + 1) r id = .ok r') : RootPost P r r' := by
+  simp only [disposeRest] at hx
+  split at hx
+  · simp only [Except.ok.injEq] at hx
+    subst hx; exact ⟨hI, Grows.refl _⟩
+  · split at hx
+    · simp only [Except.ok.injEq] at hx
+      subst hx; exact ⟨hI, Grows.refl _⟩
+    · split at hx
+      · cases hx
+      · rename_i r1 h1
+        obtain ⟨i1, g1⟩ := ih.dchildren P r id r1 hI h1
+        obtain ⟨i2, g2⟩ := ih.rest P r1 id r' i1 hx
+        exact ⟨i2, g1.trans g2⟩
 
 theorem pres_loop {f : Nat} (ih : PresAll f) (P : Id → Prop) (r : Root) (l : List Id) (r' : Root)
     (hI : RInvP P r) (hx : propagateLoop (f + 1) r l = .ok r') : RootPost P r r' := by
@@ -1389,7 +1411,8 @@ theorem presAll : ∀ f, PresAll f
     { body := pres_body ih, inner := pres_inner ih, stmt := pres_stmt ih, closure := pres_closure ih,
       selector := pres_selector ih, update := pres_update ih, loop := pres_loop ih,
       nodeUpdates := pres_nodeUpdates ih, updates := pres_updates ih, dnode := pres_dnode ih,
-      dchildren := pres_dchildren ih, cleanups := pres_cleanups ih, dlist := pres_dlist ih }
+      dchildren := pres_dchildren ih, rest := pres_rest ih, cleanups := pres_cleanups ih,
+      dlist := pres_dlist ih }
 
 /-! ### 9. the initial state, top-level programs -/
 
@@ -1981,6 +2004,7 @@ structure SafeAll (f : Nat) : Prop where
     Safe (propagateUpdates f r s) (XPost r)
   dnode : ∀ (P : Id → Prop) r id, RInvP P r → XInv r → Safe (disposeNode f r id) (XPost r)
   dchildren : ∀ (P : Id → Prop) r id, RInvP P r → XInv r → Safe (disposeChildren f r id) (XPost r)
+  rest : ∀ (P : Id → Prop) r id, RInvP P r → XInv r → Safe (disposeRest f r id) (XPost r)
   cleanups : ∀ (P : Id → Prop) r cls, RInvP P r → (∀ cl ∈ cls, EnvLt r.nodes.size cl.env) → XInv r →
     Safe (runCleanups f r cls) (XPost r)
   dlist : ∀ (P : Id → Prop) r cs, RInvP P r → XInv r → Safe (disposeList f r cs) (XPost r)
@@ -1990,7 +2014,7 @@ theorem fuel_safe : Panic.fuel ≠ Panic.unwrapNone := by intro h; cases h
 theorem safeAll_zero : SafeAll 0 := by
   constructor <;> intros <;> simp only [execBody, execInner, execStmt, runClosure, createSelector,
     runNodeUpdate, propagateLoop, propagateNodeUpdates, propagateUpdates, disposeNode, disposeChildren,
-    runCleanups, disposeList] <;> exact fuel_safe
+    disposeRest, runCleanups, disposeList] <;> exact fuel_safe
 
 /-! ### the easy cases -/
 
@@ -2079,8 +2103,32 @@ theorem safe_dnode {f : Nat} (ih : SafeAll f) (P : Id → Prop) (r : Root) (id :
   · rename_i r1 he
     rw [he] at h1
     obtain ⟨i1, g1⟩ := (presAll f).dchildren P (unsubscribe r id) id r1 i0 he
-    obtain ⟨_, g2, _⟩ := i1.removeNode id
-    exact XPost.trans (XPost.trans ⟨x0, s0⟩ g0 g1 h1) (g0.trans g1) g2 (h1.1.removeNode i1 id)
+    have h1' := ih.rest P r1 id i1 h1.1
+    split
+    · rename_i e he'; rw [he'] at h1'; exact h1'
+    · rename_i r1' he'
+      rw [he'] at h1'
+      obtain ⟨i1', g1'⟩ := (presAll f).rest P r1 id r1' i1 he'
+      obtain ⟨_, g2, _⟩ := i1'.removeNode id
+      exact XPost.trans (XPost.trans (XPost.trans ⟨x0, s0⟩ g0 g1 h1) (g0.trans g1) g1' h1')
+        ((g0.trans g1).trans g1') g2 (h1'.1.removeNode i1' id)
+
+theorem safe_rest {f : Nat} (ih : SafeAll f) (P : Id → Prop) (r : Root) (id : Id)
+    (hI : RInvP P r) (hX : XInv r) : Safe (disposeRest (f + 1) r id) (XPost r) := by
+  simp only [disposeRest]
+  split
+  · exact ⟨hX, XStep.refl r⟩
+  · split
+    · exact ⟨hX, XStep.refl r⟩
+    · have h1 := ih.dchildren P r id hI hX
+      split
+      · rename_i e he; rw [he] at h1; exact h1
+      · rename_i r1 he
+        rw [he] at h1
+        obtain ⟨i1, g1⟩ := (presAll f).dchildren P r id r1 hI he
+        refine (ih.rest P r1 id i1 h1.1).mono ?_
+        intro r' hr' h2
+        exact XPost.trans h1 g1 ((presAll f).rest P r1 id r' i1 hr').2 h2
 
 theorem safe_updates {f : Nat} (ih : SafeAll f) (P : Id → Prop) (r : Root) (s : Id)
     (hI : RInvP P r) (hX : XInv r) (hs : ∃ n, r.get? s = some n ∧ n.value ≠ none) :
@@ -2806,7 +2854,8 @@ theorem safeAll : ∀ f, SafeAll f
     { body := safe_body ih, inner := safe_inner ih, stmt := safe_stmt ih, closure := safe_closure ih,
       selector := safe_selector ih, update := safe_update ih, loop := safe_loop ih,
       nodeUpdates := safe_nodeUpdates ih, updates := safe_updates ih, dnode := safe_dnode ih,
-      dchildren := safe_dchildren ih, cleanups := safe_cleanups ih, dlist := safe_dlist ih }
+      dchildren := safe_dchildren ih, rest := safe_rest ih, cleanups := safe_cleanups ih,
+      dlist := safe_dlist ih }
 
 /-! ### the initial state, top-level programs -/
 
